@@ -27,10 +27,11 @@ impl TryFrom<f64> for HFloat {
     type Error = ();
 
     fn try_from(value: f64) -> Result<Self, Self::Error> {
+        // Only values that half precision represents exactly may become immediates;
+        // anything else must go through the constant table or the literal is altered.
         let hv = f16::from_f64(value);
-        let error = (hv.to_f64() - value).abs();
-        if error < ALLOWED_ERROR {
-            Ok(Self(f16::from_f64(value)))
+        if hv.to_f64() == value {
+            Ok(Self(hv))
         } else {
             Err(())
         }
